@@ -1,4 +1,5 @@
 import Proofs.ScsvFaults
+import Proofs.ScsvTerse
 /-! # C16 — SCSV save/read round trip is lossless; invalid schemas and data are refused
 
 Theorems about `Scsv.save` / `Scsv.read` (the model of `pydrex.io.save_scsv` / `read_scsv` at /repo
@@ -182,5 +183,43 @@ theorem fault_field_without_name_is_KeyError (E : FloatExt) (d m : Str) (pre pos
     (hdm : d ≠ m) (hinf : isInfix d m = false) (hpre : ∀ g ∈ pre, FieldValid g) (hf : f.name = none) :
     save E ⟨some d, some m, some (pre ++ f :: post)⟩ (c0 :: cs) = .error .key :=
   save_field_without_name E d m pre post f c0 cs hlen hdm hinf hpre hf
+
+/-! ## the terse schema notation (`parse_scsv_schema`) -/
+
+/-- every failure of `parse_scsv_schema` is the SCSV error -/
+theorem terse_errors_are_SCSVError (s : Str) (e : Err) (h : parseTerse s = .error e) : e = .scsv :=
+  parseTerse_error s e h
+
+/-- a string that does not start with `d`, or has no `:`, or has its first `:` before position 4, or has no
+`m` from position 2 on before that `:`, is refused -/
+theorem terse_refused (s : Str)
+    (h : s.head? ≠ some 'd' ∨ findChar ':' s = none ∨ (∃ ic, findChar ':' s = some ic ∧ ic < 4) ∨
+      (∃ ic, findChar ':' s = some ic ∧
+        (findChar 'm' (s.take ic) = none ∨ ∃ im, findChar 'm' (s.take ic) = some im ∧ im < 2))) :
+    parseTerse s = .error .scsv := by
+  rcases h with h | h | ⟨ic, h, h4⟩ | ⟨ic, h, hm⟩
+  · exact parseTerse_not_d s h
+  · exact parseTerse_no_colon s h
+  · exact parseTerse_early_colon s ic h h4
+  · exact parseTerse_no_m s ic h hm
+
+/-- whatever `parse_scsv_schema` accepts is a complete schema: three keys, at least one field, every field
+with a name, a known type and a fill (default `""`) -/
+theorem terse_result_is_complete (s : Str) (sch : Schema) (h : parseTerse s = .ok sch) :
+    ∃ d m fs, sch = ⟨some d, some m, some fs⟩ ∧ fs ≠ [] ∧
+      ∀ f ∈ fs, f.name.isSome = true ∧ (∃ t, typeOf f.typeName = some t) ∧ f.fill.isSome = true :=
+  parseTerse_shape s sch h
+
+/-- hence `_validate_scsv_schema` never raises on the result of `parse_scsv_schema` -/
+theorem terse_validate_total (s : Str) (sch : Schema) (h : parseTerse s = .ok sch) : ∃ b, validate sch = .ok b :=
+  validate_parseTerse_total s sch h
+
+/-- **parsed fields**: the terse notation `d<delim>m<missing>:name(code:fill:unit)…` denotes exactly the
+schema it spells, for every delimiter without `m`/`:`, missing marker without `:`, and every non-empty
+list of expressible columns (any number). -/
+theorem terse_denotation (d m : Str) (cols : List TCol) (hd : d ≠ []) (hdm : 'm' ∉ d) (hdc : ':' ∉ d)
+    (hmc : ':' ∉ m) (hlen : 2 ≤ d.length + m.length) (hne : cols ≠ []) (h : ∀ c ∈ cols, c.OK) :
+    parseTerse (printTerse d m cols) = .ok ⟨some d, some m, some (cols.map TCol.field)⟩ :=
+  parseTerse_printTerse d m cols hd hdm hdc hmc hlen hne h
 
 end Scsv.C16
